@@ -22,7 +22,7 @@ RULE = ("seeded random programs: a function, a class with 0-3 methods, a list of
         "names shared between constructor and methods, and (rarely) the names config/subcommand/help/print_config "
         "(subcommand also as constructor parameter of a class without methods); as_positional True and False. Per program 8 command lines: values given "
         "by option, positionally, by --config (inline JSON or file, at the level itself or as a section of an enclosing "
-        "level), repeated (last wins) or omitted, in shuffled order, plus ~20% invalid lines (unknown option/key, wrong "
+        "level, the section of one subcommand also split over two --config options), the empty string as a str value, repeated (last wins) or omitted, in shuffled order, plus ~20% invalid lines (unknown option/key, wrong "
         "type, missing required, extra word, unknown/missing subcommand, --config where the level has none). "
         "Non-trivial = the call happened with at least one parameter bound to a given value; distinct = distinct "
         "(program, command line).")
@@ -44,8 +44,8 @@ ASSUMPTIONS = [
     "config, --config sections for a subcommand other than the chosen one, subcommand chosen by the config (C17)",
 ]
 EXHAUSTIVE = {"quick": False, "thorough": False}
-# classes 1-4 belonged to the two findings of round 1 (repaired in /repo: 5bbebb1, 2f69862)
-FINDING_CLASSES = {5: "class-subcommand-param", 6: "nullish-str-default"}
+# classes 1-5, 7 belonged to the three findings repaired in /repo (5bbebb1, 2f69862, 4bb4764)
+FINDING_CLASSES = {6: "nullish-str-default"}
 
 PARAM_NAMES = ["alpha", "beta", "gamma", "delta", "eps", "zeta", "theta", "iota", "kappa", "lam", "mu", "nu", "xi",
                "rho", "sigma", "tau", "ups", "phi", "chi", "psi", "omega", "_hid", "_priv",
@@ -78,7 +78,8 @@ def gen_value(rng, t, allow_none=True):
     if t == "int":
         return rng.randint(-5, 20)
     if t == "str":
-        return rng.choice(WORDS)
+        # the empty string is a value like any other ('' on argv, "k": "" in a config)
+        return "" if rng.random() < 0.1 else rng.choice(WORDS)
     if t == "bool":
         return rng.random() < 0.5
     return [rng.randint(0, 9) for _ in range(rng.randint(0, 3))]
@@ -331,7 +332,18 @@ def gen_line(rng, comps, as_pos, invalid):
         items = list(h["level_toks"])
         if h["own_cfg"]:
             doc = h["own_cfg"]
-            if len(doc) > 1 and rng.random() < 0.3:
+            secs = [e for e in doc if "sec" in e[1] and e[1]["sec"]]
+            if secs and rng.random() < 0.4:
+                # two --config options that BOTH carry a section for the same subcommand: what the first one sets
+                # and the second one leaves out must survive (one of the two sections may even be empty)
+                e = rng.choice(secs)
+                sub = e[1]["sec"]
+                k = rng.randint(0, len(sub))
+                rest = [x for x in doc if x is not e]
+                j = rng.randint(0, len(rest))
+                items.append(["cfg", rest[:j] + [[e[0], {"sec": sub[:k]}]]])
+                items.append(["cfg", [[e[0], {"sec": sub[k:]}]] + rest[j:]])
+            elif len(doc) > 1 and rng.random() < 0.3:
                 k = rng.randint(1, len(doc) - 1)
                 items.append(["cfg", doc[:k]])
                 items.append(["cfg", doc[k:]])
@@ -410,6 +422,19 @@ def fixed_cases():
     n = {"k": "fn", "name": "run", "sig": [I("alpha", "null", ["opt", "str"])]}
     out.append({"as_pos": True, "components": {"form": "one", "c": n}, "toks": []})
     out.append({"as_pos": True, "components": {"form": "one", "c": n}, "toks": [["opt", "alpha", "foo"]]})
+    # the empty string for a required str parameter: positionally, by config, for a method
+    e1 = {"k": "fn", "name": "send", "sig": [I("alpha", None, "str"), I("beta", None, "str", "ko")]}
+    out.append({"as_pos": True, "components": {"form": "one", "c": e1}, "toks": [["pos", ""], ["cfg", [["beta", {"leaf": ""}]]]]})
+    out.append({"as_pos": False, "components": {"form": "one", "c": e1}, "toks": [["opt", "alpha", ""], ["opt", "beta", "foo"]]})
+    # two --config options above the subcommand, both with a section for it; the second leaves out what the first set
+    b1 = {"k": "cls", "name": "Pipe", "init": [I("alpha", 1)], "meths": [["apply", [I("beta", "all", "str"), I("gamma", 1)]], ["reset", []]]}
+    out.append({"as_pos": True, "components": {"form": "one", "c": b1},
+                "toks": [["cfg", [["apply", {"sec": [["beta", {"leaf": "foo"}], ["gamma", {"leaf": 4}]]}]]],
+                         ["cfg", [["alpha", {"leaf": 2}], ["apply", {"sec": [["gamma", {"leaf": 5}]]}]]], ["pos", "apply"]]})
+    b2 = {"k": "fn", "name": "build", "sig": [I("beta", "all", "str"), I("gamma", 1)]}
+    out.append({"as_pos": True, "components": {"form": "list", "cs": [b2, h]},
+                "toks": [["cfg", [["build", {"sec": [["beta", {"leaf": "foo"}], ["gamma", {"leaf": 4}]]}]]],
+                         ["cfg", [["build", {"sec": []}]]], ["pos", "build"]], "cfg_via": "file"})
     for o in out:
         o.setdefault("cfg_via", "string")
     return out
